@@ -1130,25 +1130,51 @@ func C34(c *Ctx) {
 		for _, e := range need(c, r1, fn, false, "enqueueCommitRequest", Named("NoKV.(*DB).enqueueCommitRequest"), 1) {
 			sentinelGuards(c, r1, fn, "ErrTxnTooBig", e.(ssa.Instruction), "enqueueCommitRequest", 2)
 			oversizeGuard(c, r1, fn, e.(ssa.Instruction))
-			// the throttle loop: enqueue lies behind the exit edge of `blockWrites == 1`
+			// the throttle loop: enqueue lies behind the exit edge of `blockWrites == 1`; the loop may
+			// live in a helper whose error is checked before the enqueue
 			found := false
-			for _, b := range fn.Blocks {
-				ifi := ifOf(b)
-				if ifi == nil {
-					continue
+			scanThrottle := func(g *ssa.Function, targets []ssa.Instruction) {
+				for _, b := range g.Blocks {
+					ifi := ifOf(b)
+					if ifi == nil {
+						continue
+					}
+					bo, ok := ifi.Cond.(*ssa.BinOp)
+					if !ok || (bo.Op != token.EQL && bo.Op != token.NEQ) {
+						continue
+					}
+					call, ok := bo.X.(*ssa.Call)
+					if !ok || !Named("sync/atomic.LoadInt32")(call.Common()) {
+						continue
+					}
+					if o, f, ok := FieldOf(call.Call.Args[0]); ok && o == "NoKV.DB" && f == "blockWrites" {
+						found = true
+						exit := b.Succs[1]
+						if bo.Op == token.NEQ {
+							exit = b.Succs[0]
+						}
+						good := len(targets) > 0
+						for _, t := range targets {
+							if !EdgeDominates(b, exit, t.Block()) {
+								good = false
+							}
+						}
+						c.Decide(good, r1, key(fn, "enqueueCommitRequest<-!blockWrites"), ifi.Pos(), 2,
+							"enqueue lies behind the exit edge of the blockWrites throttle test", "enqueue is reachable while blockWrites is set")
+					}
 				}
-				bo, ok := ifi.Cond.(*ssa.BinOp)
-				if !ok || bo.Op.String() != "==" {
-					continue
-				}
-				call, ok := bo.X.(*ssa.Call)
-				if !ok || !Named("sync/atomic.LoadInt32")(call.Common()) {
-					continue
-				}
-				if o, f, ok := FieldOf(call.Call.Args[0]); ok && o == "NoKV.DB" && f == "blockWrites" {
-					found = true
-					c.Decide(EdgeDominates(b, b.Succs[1], e.Block()), r1, key(fn, "enqueueCommitRequest<-!blockWrites"), ifi.Pos(), 2,
-						"enqueue lies behind the exit edge of the blockWrites throttle test", "enqueue is reachable while blockWrites is set")
+			}
+			scanThrottle(fn, []ssa.Instruction{e.(ssa.Instruction)})
+			if !found {
+				for _, h := range rejectionHelpers(c, fn, e.(ssa.Instruction)) {
+					var okRets []ssa.Instruction
+					hei := ErrorResultIndex(h)
+					for _, r := range Returns(h) {
+						if !ProvablyNonNil(RetVal(r, hei), r, 0) {
+							okRets = append(okRets, r)
+						}
+					}
+					scanThrottle(h, okRets)
 				}
 			}
 			c.Decide(found, r1, key(fn, "has:blockWrites-test"), fn.Pos(), 1, "throttle test present", "sendToWriteCh no longer tests DB.blockWrites before enqueueing")
